@@ -247,7 +247,7 @@ def scan(repo=None):
                                          "target": "<module>", "readBack": True,
                                          "valueKind": "publishedIncomplete" if _mutated_after_publish(fn, n, t, tgts)
                                          else "keyedCache",
-                                         "line": n.lineno, "events": {}, "first_line": fn.lineno, "last_line": fn.end_lineno})
+                                         "line": n.lineno, "events": {}, "first_line": _first_line(fn), "last_line": fn.end_lineno})
             for lineno, tgt, attr, val in writes:
                 tgt_s = ast.unparse(tgt)
                 # read back: the same function later hands the object to `<tgt>.__set__(..)` (which stores under
@@ -285,11 +285,121 @@ def scan(repo=None):
                 rows.append({"path": rel, "file": os.path.basename(rel), "func": qual, "attr": attr, "target": tgt_s,
                              "valueKind": fs.value_kind(val), "readBack": read_back, "line": lineno,
                              "value": ast.unparse(val), "events": events,
-                             "first_line": fn.lineno, "last_line": fn.end_lineno})
+                             "first_line": _first_line(fn), "last_line": fn.end_lineno})
 
         visit(tree.body, None)
+    for path, tree in trees.items():
+        rows.extend(scan_containers(tree, os.path.relpath(path, repo)))
     rows.sort(key=lambda r: (r["path"], r["line"]))
     return rows
+
+
+_CONTAINER_CALLS = {"dict", "set", "list", "defaultdict", "OrderedDict", "deque", "Counter", "WeakValueDictionary",
+                    "WeakKeyDictionary", "WeakSet"}
+_GROW = {"add", "append", "appendleft", "update", "setdefault", "extend", "insert", "__setitem__"}
+_SHRINK = {"clear", "discard", "remove", "pop", "popitem", "popleft", "__delitem__"}
+
+
+def _first_line(fn):
+    """co_firstlineno of the function's code object: the line of its first decorator, if any"""
+    return min([fn.lineno] + [d.lineno for d in fn.decorator_list])
+
+
+def _is_container_expr(v):
+    if isinstance(v, (ast.Dict, ast.Set, ast.List)):
+        return True
+    if isinstance(v, ast.Call):
+        f = v.func
+        name = f.id if isinstance(f, ast.Name) else f.attr if isinstance(f, ast.Attribute) else None
+        return name in _CONTAINER_CALLS
+    return False
+
+
+def _functions(node, prefix=""):
+    """(qualified name, FunctionDef) of every function below `node` (not descending into nested functions)"""
+    for n in ast.iter_child_nodes(node):
+        if isinstance(n, (ast.FunctionDef, ast.AsyncFunctionDef)):
+            yield prefix + n.name, n
+        elif isinstance(n, ast.ClassDef):
+            yield from _functions(n, prefix + n.name + ".")
+        elif not isinstance(n, ast.Lambda):
+            yield from _functions(n, prefix)
+
+
+def _all_functions(node, prefix=""):
+    for q, f in _functions(node, prefix):
+        yield q, f
+        yield from _all_functions(f, q + ".")
+
+
+def _uses(fn, name):
+    """(grow lines, shrink lines, lines of `x in name` tests, lines of `name[..]` loads) inside fn (nested functions included)"""
+    grow, shrink, tests, loads = [], [], [], []
+    for n in ast.walk(fn):
+        if isinstance(n, ast.Call) and isinstance(n.func, ast.Attribute) and isinstance(n.func.value, ast.Name) \
+                and n.func.value.id == name:
+            if n.func.attr in _GROW:
+                grow.append(n.lineno)
+            if n.func.attr in _SHRINK:
+                shrink.append(n.lineno)
+        elif isinstance(n, (ast.Assign, ast.AugAssign, ast.AnnAssign)):
+            for t in (n.targets if isinstance(n, ast.Assign) else [n.target]):
+                if isinstance(t, ast.Subscript) and isinstance(t.value, ast.Name) and t.value.id == name:
+                    grow.append(n.lineno)
+        elif isinstance(n, ast.Delete):
+            for t in n.targets:
+                if isinstance(t, ast.Subscript) and isinstance(t.value, ast.Name) and t.value.id == name:
+                    shrink.append(n.lineno)
+        elif isinstance(n, ast.Compare) and any(isinstance(o, (ast.In, ast.NotIn)) for o in n.ops) and \
+                any(isinstance(c, ast.Name) and c.id == name for c in n.comparators):
+            tests.append(n.lineno)
+        elif isinstance(n, ast.Subscript) and isinstance(n.ctx, ast.Load) and isinstance(n.value, ast.Name) \
+                and n.value.id == name:
+            loads.append(n.lineno)
+    return grow, shrink, tests, loads
+
+
+def scan_containers(tree, rel):
+    """process-wide mutable containers (module level, or created in an enclosing function and captured by an inner function
+    that outlives it, e.g. a decorator's wrapper) whose entries COME AND GO while operations run:
+      * transientEntries: some function adds entries and some function removes / clears them - the content reflects the
+        operations in flight in ALL threads (an "in progress" set, a bounded / evicting cache);
+      * checkThenGet: `if k in C: ... C[k]` on such a container - another thread can remove k in between."""
+    out = []
+    containers = []     # (name, scope description, functions that can see it)
+    for n in tree.body:
+        if isinstance(n, ast.Assign) and len(n.targets) == 1 and isinstance(n.targets[0], ast.Name) \
+                and _is_container_expr(n.value):
+            containers.append((n.targets[0].id, "<module>", list(_all_functions(tree))))
+    for q, f in _all_functions(tree):
+        inner = list(_all_functions(f, q + "."))
+        if not inner:
+            continue
+        for n in f.body:
+            if isinstance(n, ast.Assign) and len(n.targets) == 1 and isinstance(n.targets[0], ast.Name) \
+                    and _is_container_expr(n.value):
+                name = n.targets[0].id
+                users = [(iq, g) for iq, g in inner if any(isinstance(x, ast.Name) and x.id == name for x in ast.walk(g))]
+                if users:
+                    containers.append((name, f"<closure of {q}>", users))
+    base = os.path.basename(rel)
+    for name, scope, fns in containers:
+        uses = [(q, f, _uses(f, name)) for q, f in fns if f.name not in DEFINITION_TIME]
+        if not (any(u[0] for _, _, u in uses) and any(u[1] for _, _, u in uses)):
+            continue
+
+        def innermost(q):
+            return not [iq for iq, _, iu in uses if iq != q and iq.startswith(q + ".") and (iu[0] or iu[1] or iu[2])]
+
+        def row(q, f, kind, line):
+            return {"path": rel, "file": base, "func": q, "attr": name, "target": scope, "valueKind": kind,
+                    "readBack": True, "line": line, "events": {}, "first_line": _first_line(f), "last_line": f.end_lineno}
+        for q, f, u in uses:
+            if (u[0] or u[1]) and innermost(q):
+                out.append(row(q, f, "transientEntries", (u[0] + u[1])[0]))
+            if u[2] and u[3] and innermost(q):
+                out.append(row(q, f, "checkThenGet", u[2][0]))
+    return out
 
 
 _MUTATORS = {"update", "append", "extend", "add", "setdefault", "pop", "popitem", "clear", "insert", "remove",
